@@ -100,6 +100,17 @@ def main():
     n_soft_alarm = sum(1 for r in soft if r["status"] == "FALSE-ALARM")
     n_soft_und = sum(1 for r in soft if r["status"] == "UNDECIDED")
     print(f"SELFTEST mutants_detected={nd}/{nb} refactors_silent={ns}/{nr} exotic_runs={len(soft)} exotic_false_alarms={n_soft_alarm} exotic_undecided={n_soft_und}")
+    # every finding recorded as "known" must still be REPORTED on the unchanged tree (a rule that stops seeing a recorded defect went blind:
+    # a relaxed assert / canonical form can do that without any corpus entry noticing)
+    known = [f for f in json.load(open(os.path.join(HERE, "known_findings.json")))["findings"] if f.get("status") == "known"]
+    props = sorted({f["property"] for f in known if not a.prop or f["property"] in a.prop})
+    lost = []
+    for pid in props:
+        r = subprocess.run([os.path.join(HERE, "check"), pid, "--repo", a.repo], capture_output=True, text=True, env=dict(os.environ, QV_NO_EVIDENCE="1"))
+        for f in known:
+            if f["property"] == pid and f" {f['id']} " not in r.stdout:
+                lost.append(f["id"])
+    print(f"SELFTEST known_findings_still_reported={len([f for f in known if f['property'] in props]) - len(lost)}/{len([f for f in known if f['property'] in props])}" + (f" LOST: {lost}" if lost else ""))
     if a.json:
         json.dump({"results": res, "mutants_detected": nd, "mutants_total": nb, "refactors_silent": ns, "refactors_total": nr,
                    "exotic_runs": len(soft), "exotic_false_alarms": n_soft_alarm, "exotic_undecided": n_soft_und}, open(a.json, "w"), indent=1)
